@@ -22,6 +22,23 @@ def main(tier, rep):
                                       seed=common.seed() + mp, cfg_extra={"max_pool": mp}, quick_stride=4)
     progs += L.gen_fault_programs(["client", "hash"], L.ALL_OPS, tier, interrupts=True, seed=common.seed(),
                                   quick_stride=4)
+    # an idle-expired pooled connection is closed inside the next call: that close() is an interruption point too
+    n = common.seed()
+    for kind in ("pooled", "hashpooled"):
+        for mp in (1, 2):
+            for op, nrs in L.ALL_OPS:
+                if not L.has_op(kind, op):
+                    continue
+                for ik in L.INTERRUPT_KINDS:
+                    for pre in (False, True):
+                        n += 1
+                        if tier == "quick" and n % 3:
+                            continue
+                        cfg = L.Cfg(kind=kind, max_pool=mp, idle=3, default_noreply=(n % 2 == 0))
+                        steps = [("call", "set", False, None, "all"), ("tick", 5),
+                                 ("call", op, nrs[n % len(nrs)], {("close", 1): ("pre", ik) if pre else ik}, "all"), ("tick", 1)]
+                        steps += [("call", f[0], f[1], None, "all") for f in L.FOLLOWUPS[n % len(L.FOLLOWUPS)] if L.has_op(kind, f[0])]
+                        progs.append((cfg, steps))
     traces = [L.run_program(cfg, steps) for cfg, steps in progs]
     L.validate(rep, traces, relevant, PROP)
     from drivers import connmodel
